@@ -82,11 +82,29 @@ def variant_text(case, v):
     return tokens, fs.layout_text(tokens, gaps)
 
 
+_EXPANDED = {}
+
+
+def expand(case):
+    """Enumerated cases are stored as their template spec only; tree and variants are derived (memoised) here."""
+    if "tree" in case:
+        return case
+    key = repr(case["spec"])
+    c = _EXPANDED.get(key)
+    if c is None:
+        if len(_EXPANDED) > 4000:
+            _EXPANDED.clear()
+        c = _EXPANDED[key] = spec_case(case["spec"])
+    return c
+
+
 def reqs_tree(case):
+    case = expand(case)
     return [req_parse(variant_text(case, v)[1], case["entry"]) for v in case["v"]]
 
 
 def judge_tree(ctx, case, resp):
+    case = expand(case)
     entry, tree = case["entry"], case["tree"]
     T = fs.shape(tree)
     full = set(fs.compound_paths(tree, entry))
@@ -104,6 +122,8 @@ def judge_tree(ctx, case, resp):
         kept = set(v[1])
         nontrivial = bool(full - kept) or kind == "min" and bool(kept)
         labels = ["variant:" + kind.split(":")[0], "root:" + root, "agree-tree" if exp is not None else "agree-reject"]
+        if case.get("rebound"):
+            labels.append("excluded:built-in-type-name-before-a-word(rebound to a bound name)")
         if len(v) > 2 and v[2]:
             labels.append("layout:fancy")
         ctx.note(key=text, nontrivial=nontrivial, labels=labels,
@@ -174,10 +194,12 @@ def safe_types(tree, entry, variants):
 
 def tree_case(tree, entry="expression", src=None, **kw):
     v = make_variants(tree, entry, src, **kw)
+    rebound = False
     if not safe_types(tree, entry, v):
         tree = fs.fix_types(tree)
         v = make_variants(tree, entry, src, **kw)
-    return {"entry": entry, "tree": tree, "v": v}
+        rebound = True
+    return {"entry": entry, "tree": tree, "v": v, "rebound": rebound}
 
 
 # ---------------------------------------------------------------------------------------------------------------
@@ -251,6 +273,7 @@ def all_A():
 
 
 def pair_specs():
+    yield ["irrelevant", {}]
     for a, n in all_A():
         for s in range(n):
             for b in TEMPLATES:
@@ -273,6 +296,8 @@ def triple_specs():
 
 
 def spec_case(spec):
+    if spec[0] == "irrelevant":
+        return {"entry": "unary", "tree": ["irrelevant"], "v": [["full", []]], "spec": spec}
     c = tree_case(build(spec), entry_of(spec))
     c["spec"] = spec
     return c
@@ -567,27 +592,35 @@ def setup(ctx):
 
 def run(ctx):
     npairs = count_iter(pair_specs())
-    ctx.enumerate(ctx.p_pairs, (spec_case(s) for s in pair_specs()), batch=100,
+    ctx.enumerate(ctx.p_pairs, ({"spec": s} for s in pair_specs()), batch=100,
                   name="ordered operator pairs x operand position (%d), all parenthesis subsets" % npairs, exhaustive=True)
     ctx.log("pairs done")
+    if ctx.stop():
+        return
     if ctx.thorough():
-        ctx.enumerate(ctx.p_triples, (spec_case(s) for s in triple_specs()), batch=100,
+        ctx.enumerate(ctx.p_triples, ({"spec": s} for s in triple_specs()), batch=100,
                       name="operator triples (chains and siblings), all parenthesis subsets", exhaustive=True)
     else:
         rnd = ctx.rng("triples")
         total = count_iter(triple_specs())
         want = 2500
         pick = set(rnd.sample(range(total), want))
-        ctx.enumerate(ctx.p_triples, (spec_case(s) for i, s in enumerate(triple_specs()) if i in pick), batch=100,
+        ctx.enumerate(ctx.p_triples, ({"spec": s} for i, s in enumerate(triple_specs()) if i in pick), batch=100,
                       name="operator triples: %d sampled of %d" % (want, total), exhaustive=False)
     ctx.log("triples done")
+    if ctx.stop():
+        return
     ctx.enumerate(ctx.p_num, number_cases(), batch=200, name="number spellings x contexts x {canonical, tight}", exhaustive=True)
     ctx.enumerate(ctx.p_cp, codepoint_packs(ctx), batch=100,
                   name="string literal code points x spellings (%s)" % ("all scalar values" if ctx.thorough() else "every 97th + boundaries"),
                   exhaustive=ctx.thorough())
     ctx.log("literals done")
+    if ctx.stop():
+        return
     ctx.forall(ctx.p_tree, ctx.scale(2500, 400000), batch=100)
     ctx.log("random trees done")
+    if ctx.stop():
+        return
     ctx.forall(ctx.p_layout, ctx.scale(2500, 300000), batch=100)
 
 
